@@ -34,6 +34,11 @@ def describe(e):
         return f"signature chain (N={e['N']}, message {e['msg']}, chain {chain}): verdicts {[(c['kind'], c['verdict']) for c in e['checks'][:4]]} contradict the provenance (PSig.tla)"
     if ev == "request":
         return f"signature request (N={e['N']}, tamper={e['tamper']}): outcome {e['out']}, Schnorr relation holds={e['schnorr_holds']}"
+    if ev == "proof":
+        return (f"{e['kind']} proof (N={e['N']}, case {e['case']}): verdict {e.get('verdict')}, decoded {e.get('decoded')}, independently evaluated relations {e.get('atoms')}"
+                + (f", builder challenge = proof challenge: {e.get('builder_eq_proof')}, patterns {e.get('patterns')}" if e["case"] == "honest" else ""))
+    if ev == "pattern":
+        return f"documented constraint pattern fails on an honest {e['host']} proof (message {e['m']}, public {e['public']}): verifies={e['verifies']}, {e['patterns']}"
     if ev == "pedersen":
         bad = [p for p in e["perturbed"] if p["verdict"] or p["verdict"] != p["recomputed_eq"]]
         return (f"Pedersen commitment ({e['group']}, N={e['N']}, {e['params']}, m={e['m']}, r={e['r']}): element equals independent h^r*prod g_i^m_i: {e['elem_eq_independent']}, "
@@ -101,9 +106,44 @@ def check_C09(tier, seed):
         lambda e: (e["group"], e["N"], e["params"], tuple(e["m"]), e["r"]), ALG_ASSUME)
 
 
+def schnorr_models(tier):
+    ms = [tlc_model("Schnorr", "MC_Schnorr.cfg", workers=8, name="mc_schnorr")]
+    if tier != "quick":
+        ms.append(tlc_model("Schnorr", "MC_Schnorr_P5.cfg", workers=12, name="mc_schnorr5"))
+    return ms
+
+
+def check_C10(tier, seed):
+    t0 = time.time()
+    build_harness()
+    ms = schnorr_models(tier) + [tlc_model("RangeC", "MC_RangeC.cfg", workers=4, name="mc_range")]
+    ev = run_lib("C10", "schnorr", tier, seed, "Trace_Schnorr", lambda e: e["ev"] == "pattern" or (e["ev"] == "proof" and e["case"] == "honest"))
+    return lib_evidence("C10", tier, seed, ms, ev,
+        "one evaluation = one honest proof (commitment proof G1/G2, signature request proof, signature proof; N in {1,2,3,5,8,13}; message classes incl. 0, 1, q-1; every / sampled subset of slots "
+        "with caller-chosen commitment scalars incl. 0) answered with the builder's challenge and verified under the proof's challenge, or one instance of a documented pattern (partial opening, equality "
+        "within / across proofs, secret sum incl. commitment scalars cs and -cs, public addition, public product with public value in {0,1,q-1,random}, range link for boundary values 128^k-1, 128^k, 128^k+1, 2^63-1); "
+        "distinct = (kind, N, message class, linked subset / pattern instance)",
+        "tlc Schnorr (Complete SPComplete) + RangeC (ProverRoundTrip) + Trace_Schnorr on harness proofs", t0,
+        lambda e: (e.get("kind", e.get("host")), e.get("N", 0), json.dumps(e.get("m")), json.dumps(e.get("linked", e.get("public"))), e.get("cs_sum_zero")), ALG_ASSUME)
+
+
+def check_C11(tier, seed):
+    t0 = time.time()
+    build_harness()
+    ms = schnorr_models(tier)
+    ev = run_lib("C11", "schnorr", tier, seed, "Trace_Schnorr", lambda e: e["ev"] == "proof")
+    return lib_evidence("C11", tier, seed, ms, ev,
+        "one evaluation = one verifier call: honest proofs, every single-field perturbation of their wire form (each group element: +generator, identity, +small-order point outside the subgroup, "
+        "swap C/T; each response scalar and the blinding response: +1), wrong challenge, wrong parameters / key, simulated transcripts under their own and another challenge, signature proofs around "
+        "a signature on another message / by another key / the all-identity signature obtained through chosen randomness; the verdict must equal the conjunction of the independently evaluated "
+        "Schnorr / well-formedness / pairing relations; distinct = (kind, N, case)",
+        "tlc Schnorr (Exact PerturbationRejects Simulated SPIdentityNeverVerifies SPPerturbationRejects) + Trace_Schnorr on harness verifier calls", t0,
+        lambda e: (e["kind"], e["N"], e["case"]), ALG_ASSUME)
+
+
 def replay_lib(pid, p):
     REGISTRY[pid](p.get("tier", "quick"), p["seed"])
 
 
-REGISTRY = {"C07": check_C07, "C08": check_C08, "C09": check_C09}
+REGISTRY = {"C07": check_C07, "C08": check_C08, "C09": check_C09, "C10": check_C10, "C11": check_C11}
 REPLAY = {"lib": replay_lib}
